@@ -127,6 +127,28 @@ class Interp:
         self.hooks = {}              # harness monitors: name -> callable
         self.start_path([])
 
+    def set_overrides(self, pairs):
+        """harness-specific models [(regex, fn)], searched before the std models"""
+        self.overrides = [(re.compile(p) if isinstance(p, str) else p, fn) for p, fn in pairs]
+        self._resolve_cache = {}
+
+    def add_enum(self, name, variants):
+        self.enums[name] = list(variants)
+        for nm in variants:
+            if name not in self.variant_owner[nm]:
+                self.variant_owner[nm].append(name)
+
+    def fn(self, last, file=None, impl=None):
+        """look a crate function up by its last path segment (+ source file / impl type when ambiguous)"""
+        c = [f for f in self.by_last.get(last, []) if '::promoted[' not in f.name]
+        if file:
+            c = [f for f in c if f.file and f.file.endswith(file)]
+        if impl:
+            c = [f for f in c if self.impl_info(f)[0] == impl]
+        if len(c) != 1:
+            raise Unsupported('function lookup %s (file %s, impl %s): %s' % (last, file, impl, [f.name for f in c]))
+        return c[0]
+
     # ------------------------------------------------------------------ path state
     def start_path(self, prefix):
         self.solver = z3.Solver()
@@ -470,10 +492,12 @@ class Interp:
             obj = Agg('bytes', [IntV(8, b) for b in c[1]])
             return SliceRef(Cell(obj), (), 0, len(c[1]))
         if t == 'promoted':
-            name = self.curfn[-1].name + '::promoted[%d]' % c[1]
-            pf = self.by_name.get(name)
+            pf = self.by_name.get(c[2])
             if pf is None:
-                raise Unsupported('promoted ' + name)
+                name = self.curfn[-1].name + '::promoted[%d]' % c[1]
+                pf = self.by_name.get(name)
+            if pf is None:
+                raise Unsupported('promoted ' + c[2])
             return self.call_fn(pf, [])
         if t == 'path':
             p = c[1]
@@ -497,6 +521,12 @@ class Interp:
             return FnRef(p)
         if t == 'float':
             return Opaque('float', (c[1],))
+        m = re.search(r'\{(closure@[^}]*)\}', c[1]) if isinstance(c[1], str) else None
+        if m:
+            return Agg(m.group(1), [])
+        m = re.match(r'^ZeroSized: (.*)$', c[1]) if isinstance(c[1], str) else None
+        if m:
+            return FnRef(m.group(1))
         return Opaque('const', (c[1],))
 
     def rvalue(self, fr, rv, f):
@@ -726,7 +756,7 @@ class Interp:
     # ------------------------------------------------------------------ source lookups (impl headers, generics)
     def _src_lines(self, file):
         if file not in self._src_cache:
-            p = os.path.join(self.src_root, file)
+            p = file if os.path.isabs(file) else os.path.join(self.src_root, file)
             self._src_cache[file] = open(p).read().split('\n') if os.path.exists(p) else []
         return self._src_cache[file]
 
